@@ -21,6 +21,8 @@
 //!   start       every start value is below the result
 //!   bound       the transfer of an edge is evaluated at most k times (each processing of a node evaluates each of
 //!               its outgoing edges once) -- counted inside the test `Context`
+//!   terminates  the run evaluates at most EVAL_LIMIT edge transfers in total (finite lattice + monotone transfers:
+//!               the real solver needs far fewer; a diverging solver is stopped by a panic inside the test Context)
 //!   least       compute(): the result equals the least closed assignment above the start values; max_steps: the
 //!               result is below it (this part is NOT decided by the Verus unit; it is sampled here)
 use crate::util::Rng;
@@ -62,10 +64,15 @@ impl EdgeFn {
     }
 }
 
+/// More transfer evaluations than any terminating run on these inputs can need (<= 8 nodes, <= 24 edges,
+/// lattice height 3: a node value changes at most 4 times).
+const EVAL_LIMIT: u64 = 20_000;
+
 struct Ctx {
     graph: DiGraph<(), EdgeFn>,
     /// number of evaluations of the transfer function, per edge
     calls: RefCell<Vec<u64>>,
+    total: std::cell::Cell<u64>,
 }
 
 impl Context for Ctx {
@@ -81,6 +88,10 @@ impl Context for Ctx {
     }
     fn update_edge(&self, value: &u8, edge: EdgeIndex) -> Option<u8> {
         self.calls.borrow_mut()[edge.index()] += 1;
+        self.total.set(self.total.get() + 1);
+        if self.total.get() > EVAL_LIMIT {
+            panic!("c07 twin: evaluation limit exceeded (solver does not terminate)");
+        }
         self.graph[edge].apply(*value)
     }
 }
@@ -156,10 +167,12 @@ fn check(case: &Case) -> Option<Value> {
     for (a, b, f) in &case.edges {
         graph.add_edge(NodeIndex::new(*a), NodeIndex::new(*b), *f);
     }
-    let ctx = Ctx { graph, calls: RefCell::new(vec![0; case.edges.len()]) };
+    let ctx = Ctx { graph, calls: RefCell::new(vec![0; case.edges.len()]), total: std::cell::Cell::new(0) };
     let prio: Vec<NodeIndex> = case.prio.iter().map(|p| NodeIndex::new(*p)).collect();
     let (start, least) = reference(case);
 
+    // a caught panic is reported in the JSON result; keep stderr quiet
+    std::panic::set_hook(Box::new(|_| {}));
     let run = catch_unwind(AssertUnwindSafe(|| {
         let mut comp = Computation::from_node_priority_list(ctx, case.default, prio);
         for (a, v) in &case.starts {
@@ -175,9 +188,12 @@ fn check(case: &Case) -> Option<Value> {
         let calls = comp.get_context().calls.borrow().clone();
         (result, worklist, comp.has_stabilized(), calls)
     }));
+    let _ = std::panic::take_hook();
     let (result, worklist, stabilized, calls) = match run {
         Ok(r) => r,
-        Err(_) => return Some(json!({"input": case.to_json(), "check": "panic", "observed": "panic", "expected": "no panic"})),
+        Err(_) => return Some(json!({"input": case.to_json(), "check": "terminates",
+            "observed": "panic (index out of bounds, or more than EVAL_LIMIT transfer evaluations: the solver does not terminate)",
+            "expected": "terminates without panic", "least_closed_assignment": least})),
     };
     let fail = |check: &str, observed: Value, expected: Value| {
         Some(json!({"input": case.to_json(), "check": check, "observed": observed, "expected": expected,
